@@ -569,10 +569,15 @@ def multifile_case(ctx, case):
         names = [f"{prob}{n}" for n in sizes] if case["named"] else None
         cls = {"tsp": E.TSPEnv, "vrp": E.CVRPEnv}[prob]
         kw = {f"{phase}_file": files, "data_dir": d}
+        if case.get("abs_paths"):
+            # files registered by absolute path (data_dir left at its default): they must be found where they are
+            kw = {f"{phase}_file": [os.path.join(d, f_) for f_ in files]}
+            sig["abs_paths"] = True
+            ctx.count("c19_abs_path_sets")
         if names:
             kw[f"{phase}_dataloader_names"] = names
         env = cls(generator_params=dict(num_loc=sizes[0]), **kw)
-        dsets = env.dataset(phase=phase)
+        dsets = env.dataset(case["N"] if case.get("abs_paths") else [], phase=phase)
         ctx.count("c19_multifile_sets")
         keys = names or [str(i) for i in range(len(files))]
         if not isinstance(dsets, dict) or list(dsets.keys()) != keys:
@@ -588,6 +593,19 @@ def multifile_case(ctx, case):
             if td["locs"].shape != want.shape or not torch.equal(td["locs"], want):
                 ctx.violation(dict(sig, q="name_file_pairing"), f"the dataset registered as '{key}' does not hold the content of its file {fn} (locs {tuple(td['locs'].shape)} vs {tuple(want.shape)})", dict(files=files, names=keys))
                 return
+        # an explicit filename overrides the files configured for the phase
+        other = files[-1]
+        ds_o = env.dataset(phase=phase, filename=os.path.join(d, other))
+        ctx.evaluation()
+        ctx.count("c19_filename_override_loads")
+        if isinstance(ds_o, dict):
+            ctx.violation(dict(sig, q="filename_override_ignored"), f"env.dataset(phase='{phase}', filename={other}) returned the configured multi-file dict instead of the named file", None)
+            return
+        td_o = next(iter(DataLoader(ds_o, batch_size=case["N"], collate_fn=ds_o.collate_fn)))
+        want_o = torch.from_numpy(raws[other]["locs"])
+        if td_o["locs"].shape != want_o.shape or not torch.equal(td_o["locs"], want_o):
+            ctx.violation(dict(sig, q="filename_override_ignored"), f"env.dataset(phase='{phase}', filename={other}) does not hold the content of {other}", None)
+            return
         ctx.nontrivial_case(dict(c=case))
         ctx.sample(dict(case=case, names=keys))
     finally:
